@@ -1,6 +1,8 @@
 package sym
 
 import (
+	"time"
+	"sync"
 	"runtime/debug"
 	"fmt"
 	"go/token"
@@ -35,6 +37,11 @@ type Program struct {
 	wrapErrorPtr       types.Type // *fmt.wrapError
 
 	sharedGlobals map[*ssa.Global]*Value
+	initRun       map[*ssa.Package]bool
+	initFailed    map[*ssa.Package]bool
+	sharedMu      sync.RWMutex
+	lazyMu        sync.Mutex
+	initStores    map[*ssa.Global]bool
 	perPathPkgs   []*ssa.Package
 
 	LoadSeconds float64
@@ -60,10 +67,119 @@ type ModelSpec struct {
 	Source   string // path of the model source file
 }
 
+// hasInitializer reports whether the package initialiser assigns the global.
+func (p *Program) hasInitializer(g *ssa.Global) bool {
+	if p.initStores == nil {
+		p.initStores = map[*ssa.Global]bool{}
+		for _, sp := range p.prog.AllPackages() {
+			init := sp.Func("init")
+			if init == nil {
+				continue
+			}
+			for _, b := range init.Blocks {
+				for _, ins := range b.Instrs {
+					if st, ok := ins.(*ssa.Store); ok {
+						var root ssa.Value = st.Addr
+						for {
+							switch x := root.(type) {
+							case *ssa.FieldAddr:
+								root = x.X
+								continue
+							case *ssa.IndexAddr:
+								root = x.X
+								continue
+							}
+							break
+						}
+						if gg, ok := root.(*ssa.Global); ok {
+							p.initStores[gg] = true
+						}
+					}
+				}
+			}
+		}
+	}
+	return p.initStores[g]
+}
+
 var sharedInitPkgs = []string{
 	"internal/oserror", "io", "io/fs", "unicode/utf8", "strconv", "bytes", "strings", "sort",
 	"container/list", "encoding/binary", "context", "math/bits", "encoding/csv",
 	"bufio",
+}
+
+func (p *Program) isInitRun(sp *ssa.Package) bool {
+	p.sharedMu.RLock()
+	defer p.sharedMu.RUnlock()
+	return p.initRun[sp]
+}
+
+// lazyInit runs the initialiser of a standard-library package on first use.
+func (p *Program) lazyInit(sp *ssa.Package) bool {
+	path := sp.Pkg.Path()
+	if strings.Contains(strings.SplitN(path, "/", 2)[0], ".") {
+		return false // not the standard library
+	}
+	p.lazyMu.Lock()
+	defer p.lazyMu.Unlock()
+	if p.isInitRun(sp) {
+		return true
+	}
+	if p.initFailed[sp] {
+		return false
+	}
+	boot := &Machine{P: p, cfg: DefaultConfig()}
+	ok := true
+	func() {
+		defer func() {
+			if r := recover(); r != nil {
+				ok = false
+			}
+		}()
+		saved := p.perPathPkgs
+		boot.prefix = nil
+		boot.globals = map[*ssa.Global]*Value{}
+		p.sharedMu.RLock()
+		for g, v := range p.sharedGlobals {
+			boot.globals[g] = v
+		}
+		p.sharedMu.RUnlock()
+		_ = saved
+		boot.vars = map[string]uint8{}
+		boot.known = map[uint64][]knownCond{}
+		boot.dom = map[string]*[4]uint64{}
+		boot.multi = map[string]bool{}
+		boot.loopCount = map[loopKey]int{}
+		boot.mutexes = map[*Value]*mutexState{}
+		boot.gs = []*G{{id: 0, wake: make(chan struct{}, 1)}}
+		boot.cur = boot.gs[0]
+		boot.pathStart = time.Now()
+		for _, mem := range sp.Members {
+			if g, ok := mem.(*ssa.Global); ok {
+				cell := zero(deref(g.Type()))
+				boot.globals[g] = &cell
+			}
+		}
+		if init := sp.Func("init"); init != nil {
+			boot.call(nil, token.NoPos, init, nil)
+		}
+	}()
+	if !ok {
+		if p.initFailed == nil {
+			p.initFailed = map[*ssa.Package]bool{}
+		}
+		p.initFailed[sp] = true
+		return false
+	}
+	p.sharedMu.Lock()
+	for _, mem := range sp.Members {
+		if g, ok := mem.(*ssa.Global); ok {
+			p.sharedGlobals[g] = boot.globals[g]
+		}
+	}
+	p.initRun[sp] = true
+	p.sharedMu.Unlock()
+	return true
 }
 
 func moduleDir(repoDir, mod string) (string, error) {
@@ -188,6 +304,10 @@ func Load(opts LoadOptions) (*Program, error) {
 
 	// run shared (std) initialisers once
 	p.sharedGlobals = map[*ssa.Global]*Value{}
+	p.initRun = map[*ssa.Package]bool{}
+	for _, sp := range p.perPathPkgs {
+		p.initRun[sp] = true
+	}
 	boot := &Machine{P: p, cfg: DefaultConfig()}
 	sol, err := NewSolver("z3", 10000)
 	if err != nil {
@@ -225,10 +345,14 @@ func Load(opts LoadOptions) (*Program, error) {
 					defer func() {
 						if r := recover(); r != nil {
 							p.Warnings = append(p.Warnings, fmt.Sprintf("init of %s not completed: %v", path, r))
+							return
 						}
+						p.initRun[sp] = true
 					}()
 					boot.call(nil, token.NoPos, init, nil)
 				}()
+			} else {
+				p.initRun[sp] = true
 			}
 		}
 		boot.sol.EndPath()
